@@ -68,8 +68,8 @@ fn op_json(op: &Op) -> Value {
     json!(format!("{op:?}"))
 }
 
-fn depth_storage3() -> [(u8, bool); 4] {
-    [(8, false), (8, true), (10, true), (16, true)]
+fn depth_storage3() -> [(u8, bool); 5] {
+    [(8, false), (8, true), (10, true), (12, true), (16, true)]
 }
 
 pub fn single_stage_ops() -> Vec<Op> {
@@ -99,7 +99,9 @@ pub fn composite_ops(tier: Tier) -> Vec<Op> {
             for &m in STD_MATRICES.iter() {
                 for full in [false, true] {
                     for (n, wide) in depth_storage3() {
-                        if tier == Tier::Quick && n == 16 {
+                        // quick: 12 and 16 bit with every curve (a label may interact with the depth),
+                        // but only for one matrix x primaries pair
+                        if tier == Tier::Quick && n >= 12 && !(m == MC::BT709 && p == CP::BT709) {
                             continue;
                         }
                         v.push(Op::LinToYuv(m, full, n, wide, t, p));
